@@ -63,6 +63,22 @@ def build_arg(kind, form, dim=None):
     n = form["n"]
     if kind == "vec_dir":
         return sc.vector([0.0, 0.0, 1.0]), None
+    if kind in ("mat_rot", "mat_lin"):
+        import scipp.spatial
+
+        g = np.random.default_rng(form["seed"])
+        if kind == "mat_rot":
+            rv = sc.vectors(dims=[dim], values=g.uniform(-1, 1, (max(form["n"], 1), 3)), unit="rad")
+            m = sc.spatial.rotations_from_rotvecs(rv)
+        else:
+            unit = "1/angstrom" if form["unit"] == "target" else "1/nm"
+            vals = np.eye(3)[None, :, :] * g.uniform(0.2, 0.5, (max(form["n"], 1), 1, 1)) + g.uniform(-0.05, 0.05, (max(form["n"], 1), 3, 3))
+            m = sc.spatial.linear_transforms(dims=[dim], values=vals, unit=unit)
+        if form["shape"] == "0d":
+            return m[dim, 0].copy(), None
+        if form["shape"] == "view" and form["n"] > 2:
+            return m[dim, 1:form["n"] - 1], m
+        return m, None
     if kind in VEC_KINDS:
         unit = VEC_KINDS[kind] if form["unit"] == "target" else {"m": "mm", "1/angstrom": "1/nm",
                                                                  "m/s**2": "cm/s**2"}[VEC_KINDS[kind]]
@@ -341,6 +357,37 @@ CALLS.update({
     "peaks.fit_peaks": (lambda: _fit_small, {"$data": "spectrum_var"}),
 })
 VEC_KINDS["vec_dir"] = "dimensionless"
+VEC_KINDS["mat_rot"] = "dimensionless"
+VEC_KINDS["mat_lin"] = "1/angstrom"
+
+
+def _deduce(*, data):
+    import scippneutron as scn
+
+    return {t: scn.deduce_conversion_graph(data, origin="tof", target=t, scatter=True)
+            for t in ("wavelength", "dspacing", "energy", "Q")}
+
+
+def _cif_lowlevel(*, column, other):
+    from scippneutron.io import cif
+
+    loop = cif.Loop({"x.col": column}, comment="c")
+    try:
+        loop["x.other"] = other
+    except Exception:  # noqa: BLE001  (shape mismatch is fine: the loop keeps its first column)
+        pass
+    block = cif.Block("b", [loop, cif.Chunk({"y.scalar": column[column.dim, 0] if column.ndim else column})])
+    s = io.StringIO()
+    cif.save_cif(s, block, comment="file")
+    return _canon_cif_text(s.getvalue())
+
+
+CALLS.update({
+    "tof.hkl_vec_from_Q_vec": (_tof("hkl_vec_from_Q_vec"), _kw(Q_vec="vec_Q", ub_matrix="mat_lin", sample_rotation="mat_rot")),
+    "tof.ub_matrix_from_u_and_b": (_tof("ub_matrix_from_u_and_b"), _kw(u_matrix="mat_rot", b_matrix="mat_lin")),
+    "core.deduce_conversion_graph": (lambda: _deduce, {"$data": "tofdata"}),
+    "cif.Loop+save_cif": (lambda: _cif_lowlevel, _kw(column="xgrid", other="vertex_wav")),
+})
 SAME_LAYOUT |= {"cascade.Subframe", "chopper.DiskChopper"}
 
 
@@ -1286,6 +1333,35 @@ class C09Engine(Engine):
 
     def generate(self, rng, tier, i):
         return generate(rng, tier, i)
+
+    def extra_meta(self):
+        """Public callables of the anchored modules vs. what the catalogue reaches."""
+        import inspect
+
+        mods = {"conversion.tof": None, "conversion.beamline": None, "conversion.graph.tof": None,
+                "conversion.graph.beamline": None, "core.conversions": None, "beamline_components": None,
+                "tof.chopper_cascade": None, "chopper.disk_chopper": None, "chopper.filtering": None,
+                "absorption.base": None, "absorption.cylinder": None, "absorption.material": None,
+                "peaks.model": None, "peaks._fit_peaks": None, "peaks._remove_peaks": None, "atoms": None,
+                "io.xye": None, "io.cif": None}
+        reached = " ".join(list(CALLS) + list(FACTORIES) + list(DERIVES) + list(HCALLS)) + " " + " ".join(
+            inspect.getsource(f) for f in (_model, _deduce, _cif_lowlevel, _disk_chopper, _subframe, _source_pulse, _model_call, _model_params,
+                                           _transmission, _plateaus, _components, _fit_small, _convert,
+                                           _remove_peaks_call, _xye_roundtrip, _cif_save, _block_write,
+                                           _use_graph, _call_model, _guess_model, _cyl, _material, _cif,
+                                           _cif_block, _frameseq, _chopper))
+        out = {}
+        for m in mods:
+            mod = _mod("scippneutron." + m)
+            names = [n for n, o in vars(mod).items() if not n.startswith("_") and callable(o)
+                     and getattr(o, "__module__", "") == mod.__name__]
+            missing = [n for n in names if n not in reached]
+            out[m] = {"public_callables": len(names), "not_reached_by_catalogue": sorted(missing)}
+        return {"catalogue": {"calls": len(CALLS), "factories": len(FACTORIES), "derivations": len(DERIVES),
+                              "handle_calls": len(HCALLS), "mutations": len(MUTATIONS),
+                              "aliasing_grid_cases": len(_grid_cases()),
+                              "reentrancy_sweep_cases": len(_reentrancy_cases())},
+                "module_coverage": out}
 
     # --------------------------------------------------------------- execute
     def _snap(self, world):
